@@ -15,6 +15,7 @@ up to evaluation order of side-effect-free operands, which no rule depends on.
   N4  x = x <op> e   (x a plain name)                    ->  x <op>= e
   N5  if a: (if b: BODY)   (no else on either, nothing else in the outer body)  ->  if a and b: BODY
   N6  x: T = v   inside a function (x a plain name)        ->  x = v
+  N7  opts = dict(a=x, …) / {"a": x, …} (assigned once, used once) ; f(…, **opts)  ->  f(…, a=x, …)
 """
 
 from __future__ import annotations
@@ -157,6 +158,7 @@ class _Canon(ast.NodeTransformer):
             if isinstance(n, (ast.Global, ast.Nonlocal)):
                 for nm in n.names:
                     counts[nm] = (99, 99)
+        self._expand_kwargs_dicts(node, counts)
         stack = [node]
         while stack:
             x = stack.pop()
@@ -167,6 +169,74 @@ class _Canon(ast.NodeTransformer):
                 if isinstance(c, (ast.stmt, ast.ExceptHandler, ast.match_case)):
                     stack.append(c)
         return node
+
+    def _expand_kwargs_dicts(self, fn, counts) -> None:
+        """N7: opts = dict(a=x, b=y) / {"a": x, "b": y}, assigned once and used once, as
+        f(..., **opts) later in the same function  ->  f(..., a=x, b=y)"""
+
+        def own_stmt_lists(x):
+            for fld in ("body", "orelse", "finalbody"):
+                b = getattr(x, fld, None)
+                if isinstance(b, list) and b and isinstance(b[0], ast.stmt):
+                    yield b
+            for h in getattr(x, "handlers", []) or []:
+                yield h.body
+
+        def walk_scope(x):
+            """nodes of this function, not of nested scopes"""
+            for c in ast.iter_child_nodes(x):
+                if isinstance(c, (ast.FunctionDef, ast.AsyncFunctionDef, ast.ClassDef, ast.Lambda)):
+                    continue
+                yield c
+                yield from walk_scope(c)
+
+        lists = []
+        stack = [fn]
+        while stack:
+            x = stack.pop()
+            for b in own_stmt_lists(x):
+                lists.append(b)
+                for st in b:
+                    if not isinstance(st, (ast.FunctionDef, ast.AsyncFunctionDef, ast.ClassDef)):
+                        stack.append(st)
+        calls = [c for c in walk_scope(fn) if isinstance(c, ast.Call)]
+        for b in lists:
+            for i, st in enumerate(list(b)):
+                if not (isinstance(st, ast.Assign) and len(st.targets) == 1 and isinstance(st.targets[0], ast.Name)):
+                    continue
+                name = st.targets[0].id
+                if counts.get(name) != (1, 1):
+                    continue
+                v = st.value
+                kws = None
+                if isinstance(v, ast.Call) and isinstance(v.func, ast.Name) and v.func.id == "dict" and not v.args and v.keywords and all(k.arg is not None for k in v.keywords):
+                    kws = [(k.arg, k.value) for k in v.keywords]
+                elif isinstance(v, ast.Dict) and v.keys and all(isinstance(k, ast.Constant) and isinstance(k.value, str) and k.value.isidentifier() for k in v.keys):
+                    kws = [(k.value, x) for k, x in zip(v.keys, v.values)]
+                if kws is None:
+                    continue
+                users = [c for c in calls if any(k.arg is None and isinstance(k.value, ast.Name) and k.value.id == name for k in c.keywords)]
+                if len(users) != 1 or getattr(users[0], "lineno", 0) <= getattr(st, "lineno", 0):
+                    continue
+                c = users[0]
+                if {a for a, _ in kws} & {k.arg for k in c.keywords if k.arg}:
+                    continue
+                new_kw = []
+                for k in c.keywords:
+                    if k.arg is None and isinstance(k.value, ast.Name) and k.value.id == name:
+                        for a, x in kws:
+                            nk = ast.keyword(arg=a, value=x)
+                            ast.copy_location(nk, x)
+                            new_kw.append(nk)
+                    else:
+                        new_kw.append(k)
+                c.keywords = new_kw
+                idx = [j for j, y in enumerate(b) if y is st][0]
+                if len(b) == 1:
+                    b[idx] = ast.copy_location(ast.Pass(), st)
+                else:
+                    del b[idx]
+                counts[name] = (0, 0)
 
     visit_AsyncFunctionDef = visit_FunctionDef
 
